@@ -26,8 +26,9 @@ func init() {
 		Rule: "states = (shape, entry, variant, delivery position) configurations of the deterministic sweep: every VM-instruction boundary and every host-native entry of every shape x entry kind x variant is a delivery position; " +
 			"transitions = schedule steps explored by the cooperative scheduler over the real Interrupt/ClearInterrupt/run-loop code (all interleavings up to the reported preemption bound); " +
 			"a delivery position is non-trivial when the interrupt really ended the call (InterruptedError returned) with script frames pending",
-		Run:    run,
-		Replay: replay,
+		Run:      run,
+		Replay:   replay,
+		Prebuild: func() { startBuilds().cleanup() },
 	})
 }
 
